@@ -60,7 +60,10 @@ def parser(d):
 def intact(tier, fi, d):
     key = (tier, fi, d)
     if key not in _intact:
-        _intact[key] = parser(d).parse(files(tier)[fi].text)
+        res = attempt(d, files(tier)[fi].text)
+        if res[0] != 'ok':
+            return None     # the intact, well-formed file is rejected: judged by the caller
+        _intact[key] = res[1]
     return _intact[key]
 
 
@@ -121,6 +124,9 @@ def run(scn):
     if k == 'prefix':
         f = fl[scn['file']]
         ref = intact(tier, scn['file'], d)
+        if ref is None:
+            J.V('C11.4-unchanged', 'the intact well-formed file %s is rejected by the %s parser' % (f.name, d), what='intact-rejected')
+            ref = []
         for pos in range(scn['lo'], min(scn['hi'], len(f.text))):
             text = f.text[:pos]
             res = attempt(d, text)
@@ -176,9 +182,26 @@ def run(scn):
                         J.V('C11.2-line', '%r inserted as line %d of %s is reported at line %r (%s)' % (tok, line, f.name, getattr(res[1], 'lineno', None), res[1]),
                             what='wrong-line', inserted=what, delta=(getattr(res[1], 'lineno', 0) or 0) - want)
                 J.sigs.add((f.name, 'insert', what, res[0], type(res[1]).__name__ if res[0] != 'ok' else 'ok'))
+    elif k == 'number':
+        f = fl[scn['file']]
+        for (pos, end, line) in scn['spots']:
+            for big in ('18446744073709551616', '-18446744073709551616', '1000000000000000000000000000000', '-1000000000000000000000000000000'):
+                text = f.text[:pos] + big + f.text[end:]
+                res = attempt(d, text)
+                J.units += 1
+                J.fire('oversize-number-in-place')
+                J.clause1(res, text, 'for file %s with %s at offset %d' % (f.name, big, pos))
+                if res[0] == 'ok':
+                    J.V('C11.3-truncated', 'number %s beyond 64 bits substituted at line %d of %s was accepted' % (big, line, f.name), what='accepted-oversize-number',
+                        negative=big.startswith('-'))
+                elif res[0] == 'lexerr' and getattr(res[1], 'lineno', None) != line:
+                    J.V('C11.2-line', 'oversize number at line %d of %s reported at line %r' % (line, f.name, getattr(res[1], 'lineno', None)), what='wrong-line-number', inserted='bignum')
+                J.sigs.add((f.name, 'number', big[0] == '-', res[0], type(res[1]).__name__ if res[0] != 'ok' else 'ok'))
     elif k in ('comment', 'indent'):
         f = fl[scn['file']]
         ref = intact(tier, scn['file'], d)
+        if ref is None:
+            J.V('C11.4-unchanged', 'the intact well-formed file %s is rejected by the %s parser' % (f.name, d), what='intact-rejected')
         for pos in scn['positions']:
             for ch in (['x', '"', '@', '{', ';'] if k == 'comment' else ['\t']):
                 text = f.text[:pos] + ch + f.text[pos + 1:]
@@ -357,6 +380,22 @@ def run_compile(scn, J, tier):
 
 
 # --------------------------------------------------------------------------
+def number_spots(f):
+    """(start, end, 1-based line) of integer literals on plain code lines, outside quoted strings and comments"""
+    out = []
+    for i, (kind, t) in enumerate(f.lines):
+        if kind not in ('code', 'decl'):
+            continue
+        code = t.split('--')[0]
+        # blank out quoted strings
+        code = re.sub(r'"[^"]*"', lambda m: ' ' * len(m.group(0)), code)
+        if code.count('"') % 2:
+            continue
+        for m in re.finditer(r"(?<![\w'-])-?\d+(?![\w'])", code):
+            out.append((f.offs[i] + m.start(), f.offs[i] + m.end(), i + 1))
+    return out
+
+
 def sweep(tier):
     out = []
     fl = files(tier)
@@ -371,6 +410,9 @@ def sweep(tier):
         dl = f.decl_lines()
         for i in range(0, len(dl), 10):
             out.append({'k': 'insert', 'tier': tier, 'file': fi, 'lines': dl[i:i + 10]})
+        spots = number_spots(f)
+        for i in range(0, len(spots), 12):
+            out.append({'k': 'number', 'tier': tier, 'file': fi, 'spots': spots[i:i + 12]})
         cc = f.comment_chars()
         for i in range(0, len(cc), 40):
             out.append({'k': 'comment', 'tier': tier, 'file': fi, 'positions': cc[i:i + 40]})
@@ -422,7 +464,7 @@ def shrink(scn):
             s = copy.deepcopy(scn)
             s['lo'], s['hi'] = lo, hi
             yield s
-    for key in ('lines', 'positions', 'cuts'):
+    for key in ('lines', 'positions', 'cuts', 'spots'):
         if key in scn and len(scn[key]) > 1:
             h = len(scn[key]) // 2
             for part in (scn[key][:h], scn[key][h:]):
